@@ -86,6 +86,10 @@ impl Def {
 /// converter's name index, defined through the independent table by its canonical symbol).
 pub fn def_of(conv: &cooklang::Converter, key: &str) -> Option<Def> {
     let u = unit_by_exact_key(conv, key)?;
+    // an everyday spelling means what everybody means by it, whatever unit the converter's data hangs it on
+    if let Some((_, canonical)) = SPELLINGS.iter().find(|(s, _)| *s == key) {
+        return def_by_symbol(canonical);
+    }
     let d = def_by_symbol(u.symbol())?;
     if d.q != u.physical_quantity {
         return None;
